@@ -68,7 +68,9 @@ func ruleCur10(c *Ctx) {
 }
 
 func ruleCmp10(c *Ctx) {
-	isTernary := func(v ssa.Value) bool { return core.NamedOf(v.Type()) == "github.com/mithrandie/ternary.Value" || core.NamedOf(v.Type()) == "ternary.Value" }
+	isTernary := func(v ssa.Value) bool {
+		return core.NamedOf(v.Type()) == "github.com/mithrandie/ternary.Value" || core.NamedOf(v.Type()) == "ternary.Value"
+	}
 	n := 0
 	type site struct {
 		fn   *ssa.Function
@@ -84,7 +86,9 @@ func ruleCmp10(c *Ctx) {
 			sites = append(sites, site{fn, call})
 		}
 	}
-	sort.Slice(sites, func(i, j int) bool { return c.Pos(sites[i].call.(ssa.Instruction)) < c.Pos(sites[j].call.(ssa.Instruction)) })
+	sort.Slice(sites, func(i, j int) bool {
+		return c.Pos(sites[i].call.(ssa.Instruction)) < c.Pos(sites[j].call.(ssa.Instruction))
+	})
 	perFn := map[*ssa.Function]int{}
 	for _, s := range sites {
 		perFn[s.fn]++
